@@ -6,6 +6,10 @@ mod refmodel;
 mod selftest;
 mod sweeps;
 mod builders;
+mod xstate;
+mod m_quals;
+mod m_builder;
+mod m_checksum;
 
 use common::Tier;
 
